@@ -163,6 +163,10 @@ def record(cfg: dict, seed: int, terms: dict) -> sweep.SweepLog:
     p, so, node = p[order], so[order], node[order]
     keep = np.concatenate([[True], np.diff(p) > 0])
     p, so, node = p[keep], so[keep], node[keep]
+    if i % 2 == 1:
+        mp.warm_with_other_contents(pvt, kr, [lambda: lambda_combined_func(p, so, pvt, kr),
+                                              lambda: compressibility_combined_func(p, so, phi, sw, pvt),
+                                              lambda: alpha_multiphase(p, so, phi, sw, pvt, kr)])
     lam = mp.quiet(lambda_combined_func, p, so, pvt, kr)
     cp = mp.quiet(compressibility_combined_func, p, so, phi, sw, pvt)
     cpa = mp.quiet(compressibility_combined_func, p, so, a * phi, sw, pvt)
